@@ -47,6 +47,11 @@ def root() -> Path:
         (src / "code" / "latin1.txt").write_bytes(b"caf\xe9\n")
         (src / "code" / "empty.txt").write_bytes(b"")
         (src / "code" / "spec.yaml").write_text("openapi: 3.0.0\ninfo: {title: t, version: '1'}\npaths: {}\n")
+        # spec files that are not YAML, or YAML that is not JSON (a date, a self-referential alias)
+        (src / "code" / "bad.yaml").write_text("a: [1, 2\n")
+        (src / "code" / "date.yaml").write_text("a: 2001-01-01\n")
+        (src / "code" / "alias.yaml").write_text("a: &x\n  b: *x\n")
+        (src / "code" / "tab.yaml").write_text("a:\n\tb: 1\n")
         (src / "includes" / "a.rst").write_text("included\n")
         (_ROOT / "snooty.toml").write_text('name = "verif"\n')
 
